@@ -151,6 +151,13 @@ impl<'tcx> D<'tcx> {
                         ty::Param(p) => o.push(("param", s(p.name))),
                         _ => {}
                     }
+                    // layout where it does not depend on the parameters (`Tagged<T>` is one thin pointer for every T)
+                    if !matches!(t.kind(), ty::Param(_)) {
+                        if let Ok(l) = self.tcx.layout_of(env.as_query_input(t)) {
+                            o.push(("align", J::I(l.align.abi.bytes() as i128)));
+                            o.push(("size", J::I(l.size.bytes() as i128)));
+                        }
+                    }
                     v.push(J::O(o));
                 }
                 GenericArgKind::Const(c) => {
